@@ -11,6 +11,9 @@ def c08_children(cx, man, chk):
         cx.broken.append(('harness', 'C08 child stage: no request stream', ''))
         return
     reqs = [l.rstrip('\n') for l in open(ops)]
+    if not reqs:
+        cx.broken.append(('harness', 'C08 child stage: empty request stream', ''))
+        return
     # the model answers are aligned with the (re-ordered) requests; only the count matters here
     mans = [l.rstrip('\n').split('\t')[0] for l in open(model)]
     runs = []
@@ -88,7 +91,10 @@ def regex_difference_search(cx, man, chk):
     exp = _lean_strings(os.path.join(here, 'translate', 'seed', 'Token.lean'), 'tokenRegexSrc')
     info = {'literals_changed': bool(cur and exp and cur != exp)}
     cx.cov.setdefault('extra', {})['regex_difference_search'] = info
-    if not (cur and exp) or cur == exp:
+    if not (cur and exp):
+        cx.broken.append(('translator', 'regex difference search: cannot read the pattern literals of Gen/Token.lean or of the seed copy', ''))
+        return
+    if cur == exp:
         return
 
     def comp(p):
